@@ -97,6 +97,27 @@ def run(program, res, tier):
         res.ok("C25-S1", "make_cache_key: each table contributes (name, hash_data_frame(data_map[name]))")
     else:
         res.fail_at("C25-S1", mk, "table-component", f"per-table component is `{elt_txt}`, expected (name, hash_data_frame(data_map[name]))", comp)
+    # ---- S1: dtype names that do not say what the cells are: "object" and "category" (a categorical column is "category" whether its categories are
+    # int8, int64, str or bool, and pandas hashes the categories' bit patterns / str()): the per-cell types have to be collected for both, and the
+    # categories' own dtype has to be in the key
+    hiding = {"object", "category"}
+    dtype_filters = [c for c in ast.walk(hd.node) if isinstance(c, ast.Compare) and "dtype" in unparse(c.left)
+                     and isinstance(c.ops[0], (ast.Eq, ast.In))]
+    named = {k.value for c in dtype_filters for k in ast.walk(c.comparators[0]) if isinstance(k, ast.Constant) and isinstance(k.value, str)}
+    if not dtype_filters:
+        raise AnalysisError("hash_data_frame: the test that selects the columns whose cell types are collected was not found")
+    if hiding <= named:
+        res.ok("C25-S1", f"cell types are collected for the dtypes that hide them ({sorted(named)})")
+    else:
+        res.fail_at("C25-S1", hd, f"cell-types-not-collected-for:{','.join(sorted(hiding - named))}",
+                    f"the per-cell types are collected for {sorted(named)} columns only: a categorical column's dtype prints as 'category' whatever it holds, so categories "
+                    f"int8 [-1, 5] and int64 [255, 5] (same bit pattern) or 10 and '10' share a key — get() for a never stored table returns the other table's result", dtype_filters[0])
+    if any("categories" in unparse(c) and "dtype" in unparse(c) for c in ast.walk(hd.node) if isinstance(c, (ast.Attribute, ast.JoinedStr))):
+        res.ok("C25-S1", "the dtype of a categorical column's categories is part of the key")
+    else:
+        res.fail_at("C25-S1", hd, "category-value-dtype-not-in-key",
+                    "a categorical column enters the key as 'category' only: categories of dtype int8 holding -1 and of dtype int64 holding 255 hash alike (pandas views the "
+                    "categories' bytes as unsigned), so the two tables share a key")
     # ---- S1: hash_data_frame
     g2 = cfgmod.build(hd.node)
     d2 = depsmod.Deps(g2, hd.params())
